@@ -99,7 +99,19 @@ def traffic(tag):
 def fs_rows_of(sl, keydir):
     """key-directory calls from an strace log, in order: mkdir / restrict (chmod) / create (a file in the directory)"""
     fs_rows = []
-    for line in open(sl, errors="replace"):
+    pending = {}
+    for raw in open(sl, errors="replace"):
+        # strace -f splits a call that another thread interrupts into "<unfinished ...>" and "<... call resumed>" lines
+        # (common on a loaded machine): a call is judged only with its result, at the position where it completed
+        mp = re.match(r"^(\d+)\s+(.*)$", raw.rstrip("\n"))
+        pid, text = (mp.group(1), mp.group(2)) if mp else ("", raw.rstrip("\n"))
+        if text.endswith("<unfinished ...>"):
+            pending[pid] = text[:-len("<unfinished ...>")]
+            continue
+        mr = re.match(r"^<\.\.\. \w+ resumed>(.*)$", text)
+        if mr:
+            text = pending.pop(pid, "") + mr.group(1)
+        line = pid + " " + text
         if keydir not in line:
             continue
         m = re.search(r"\b(mkdir|mkdirat|chmod|fchmodat|chown|fchownat|openat|creat|rename|renameat2?)\(", line)
